@@ -57,8 +57,22 @@ std::string ops_json(const std::vector<Op>& ops) {
 
 // compare every logical cell, the reported offset and the raw buffer; returns false on violation
 template <size_t DIM>
-bool compare(vf::Ctx& c, G<DIM>& g, const Model<DIM>& m, const std::vector<Op>& ops, const char* phase) {
+bool compare(vf::Ctx& c, G<DIM>& g, const Model<DIM>& m, const std::vector<Op>& ops, const char* phase, bool firstAccess = false) {
   bool ok = true;
+  if (firstAccess) {   // every cell as the FIRST access after the operation, each on its own copy of the grid (access-order dependence, e.g. a cached index)
+    for (size_t l = 0; l < m.cell.size() && ok; ++l) {
+      G<DIM> copy = g;
+      int v = copy(ci<DIM>(unlin<DIM>(l, m.n)));
+      if (v != m.cell[l]) {
+        c.violation(std::string("WrappableGrid.translate.cells.firstAccess.") + phase, vf::JO().i("dim", DIM).raw("size", arr<DIM>(m.n)).raw("ops", ops_json(ops)).i("nops", ops.size()).done(), vf::JO().u("cell", l).i("got", v).i("want", m.cell[l]).done());
+        ok = false;
+      }
+      // a write as the first access must land in that very cell
+      G<DIM> copy2 = g; copy2(ci<DIM>(unlin<DIM>(l, m.n))) = -777;
+      for (size_t k = 0; k < m.cell.size() && ok; ++k) { int w = copy2(ci<DIM>(unlin<DIM>(k, m.n))); if (w != (k == l ? -777 : m.cell[k])) { c.violation(std::string("WrappableGrid.write.firstAccess.") + phase, vf::JO().i("dim", DIM).raw("size", arr<DIM>(m.n)).raw("ops", ops_json(ops)).i("nops", ops.size()).done(), vf::JO().u("written_cell", l).u("read_cell", k).i("got", w).done()); ok = false; } }
+    }
+    if (!ok) return false;
+  }
   std::vector<int> got(m.cell.size());
   for (size_t l = 0; l < m.cell.size(); ++l) { got[l] = g(ci<DIM>(unlin<DIM>(l, m.n))); c.obs((uint64_t)got[l]); }
   auto params = [&]() { return vf::JO().i("dim", DIM).raw("size", arr<DIM>(m.n)).raw("ops", ops_json(ops)).i("nops", ops.size()).done(); };
@@ -120,7 +134,7 @@ template <size_t DIM> void s1(vf::Ctx& c, const std::array<int, DIM>& n, int mul
       bool surv = false, ent = false;
       for (int v : nx.m.cell) { if (v == empty) ent = true; else surv = true; }
       if (surv && ent) c.nontrivial();
-      if (!compare<DIM>(c, nx.g, nx.m, nx.path, "refilled")) continue;   // do not expand a broken state
+      if (!compare<DIM>(c, nx.g, nx.m, nx.path, "refilled", true)) continue;   // do not expand a broken state
       uint64_t k = key(nx.g, nx.m);
       if (seen.insert(k).second) { c.states(); if (c.want_sample()) c.sample(vf::JO().str("explorer", "S1").raw("size", arr<DIM>(n)).raw("path", ops_json(nx.path)).done()); frontier.push_back(nx); }
     }
@@ -183,7 +197,7 @@ template <size_t DIM> void s2(vf::Ctx& c, const std::array<int, DIM>& n, int dep
     typename G<DIM>::CellIndexesOffset eo; for (size_t d = 0; d < DIM; ++d) eo[d] = o[d];
     if (de) g2.translate(eo); else g2.translate(eo, empty);
     c.transitions(); c.eval(); c.states();
-    if (compare<DIM>(c, g2, m2, ops, "first")) s.rec(g2, m2, ops, depth - 1);
+    if (compare<DIM>(c, g2, m2, ops, "first", true)) s.rec(g2, m2, ops, depth - 1);
     ops.pop_back();
   }
 }
@@ -235,6 +249,7 @@ std::string vf_describe(const std::string& tier) {
                  : "2D sizes 1..4 per axis, 3D 1..3; offsets per axis in [-(n+1),n+1]; BFS to fixpoint over index-offset states, every offset from every state, cells refilled with unique tags");
   o.str("S2", th ? "2D sizes 1..4, 3D 1..3, all sequences of 3 translations, offsets [-(n+1),n+1], writes {none,single,full} before each translation (3D: writes only for <=8 cells), empty value fresh or default"
                  : "2D sizes 1..4 (depth 3 up to 6 cells, else 2), 3D 1..3 depth 2, offsets [-(n+1),n+1], writes {none,single,full} (3D up to 12 cells), empty value fresh or default");
+  o.str("first_access", "S1 and the first translation of S2: every cell read (and written) as the first access after the translation, each on its own copy of the grid");
   o.str("model", "window array: new[i] = old[i+k] if inside else the translation's empty value; accumulated offset mod size");
   return o.done();
 }
